@@ -2,7 +2,6 @@ package main
 
 import (
 	"fmt"
-	"go/constant"
 	"go/types"
 	"sort"
 
@@ -199,12 +198,15 @@ func ruleCode128Encoder(c *Ctx) {
 	if fn := c.theFunc(R4, "code128.EncodeWithoutChecksumWithColor"); fn != nil && addBit != nil {
 		n := NewNormer(c.P)
 		kinds := []string{}
-		for _, call := range callsTo(fn, addBit) {
+		for _, site := range c.P.deepCallsTo(fn, addBit) {
+			// (the data patterns may be drawn by a helper shared with the variant with check symbol)
+			call := site.Ins.(*ssa.Call)
 			ix := patternIndex(call)
 			if ix == nil {
 				kinds = append(kinds, "?")
 				continue
 			}
+			n.Ctx = site.Path
 			if k, ok := n.Norm(ix).IsConst(); ok {
 				kinds = append(kinds, fmt.Sprint(k))
 			} else {
@@ -217,7 +219,7 @@ func ruleCode128Encoder(c *Ctx) {
 
 	const R6 = "Z6-C128-CODESETS"
 	c.Doc(R6, "code128.getCodeIndexList: for each code set X the start symbol is emitted iff X is chosen and nothing was emitted yet, the CODE X symbol iff X is chosen and another set is active (siblings A, B, C agree); set A/B map FNC1..4 to 102/97/96/101|100 and every other rune to its index in the set's table; set C maps FNC1 to 102 and a digit pair to 10*d1+d2")
-	c.Floor(R6, 15)
+	c.Floor(R6, 13)
 	fn := c.theFunc(R6, "code128.getCodeIndexList")
 	if fn == nil {
 		return
@@ -335,7 +337,13 @@ func ruleCode128Encoder(c *Ctx) {
 			arg = cv.X
 		}
 		phi, ok := arg.(*ssa.Phi)
+		var helperCases []valCase
 		if !ok {
+			if hc, idx, exp := expandableCall(arg, n); exp {
+				helperCases = n.callCases(hc, idx, 0) // the value picked by a helper with one return per kind of character
+			}
+		}
+		if !ok && len(helperCases) < 2 {
 			// set C digit pair
 			delete(n.Bind, iP)
 			n.Bind[iP] = "i"
@@ -345,41 +353,67 @@ func ruleCode128Encoder(c *Ctx) {
 			c.Check(R6, "code128.getCodeIndexList/C-pair", call.Pos(), pEqual(got, want), want.String(), got.String())
 			continue
 		}
-		from := phi.Block().Idom()
-		table := ""
-		arms := map[string]string{}
-		for name, val := range fnc {
+		// armOf: the value emitted when the current rune is val
+		armOf := func(val int64) (string, error) {
+			if phi == nil {
+				taken := ""
+				for _, cs := range helperCases {
+					cv := &condVars{bases: map[string]map[int64]bool{}, bools: map[string]bool{}}
+					collect(cs.cond, cv)
+					for b := range cv.bases {
+						if b != "r" {
+							return "", fmt.Errorf("alternative %s depends on %s, not only on the rune", cs.val, b)
+						}
+					}
+					if len(cv.bools) > 0 {
+						return "", fmt.Errorf("alternative %s depends on boolean atoms", cs.val)
+					}
+					if evalCond(cs.cond, map[string]int64{"r": val}, nil) {
+						if taken != "" {
+							return "", fmt.Errorf("two alternatives for rune %d", val)
+						}
+						taken = cs.val.String()
+					}
+				}
+				if taken == "" {
+					return "", fmt.Errorf("no alternative for rune %d", val)
+				}
+				return taken, nil
+			}
+			from := phi.Block().Idom()
 			arm, err := PhiArm(n, fn, phi, from, "r", val)
 			if err != nil {
 				// the function characters looked up in a package-level table
-				if _, v, err2 := phiArmFold(n, fn, phi, from, "r", val); err2 == nil {
-					arms[name] = v.String()
-					continue
+				if arm2, v, err2 := phiArmFold(n, fn, phi, from, "r", val); err2 == nil {
+					if _, isK := v.IsConst(); isK {
+						return v.String(), nil
+					}
+					return n.Norm(phi.Edges[arm2]).String(), nil // not a table entry: the arm's own expression
 				}
-				c.Undecided(R6, "code128.getCodeIndexList/fnc-table", phi.Pos(), err.Error())
+				return "", err
+			}
+			return n.Norm(phi.Edges[arm]).String(), nil
+		}
+		table := ""
+		arms := map[string]string{}
+		for name, val := range fnc {
+			v, err := armOf(val)
+			if err != nil {
+				c.Undecided(R6, "code128.getCodeIndexList/fnc-table", call.Pos(), err.Error())
 				continue
 			}
-			arms[name] = n.Norm(phi.Edges[arm]).String()
+			arms[name] = v
 		}
-		armA, errA := PhiArm(n, fn, phi, from, "r", 65)
-		if errA != nil {
-			armA, _, errA = phiArmFold(n, fn, phi, from, "r", 65)
-		}
-		if arm, err := armA, errA; err == nil {
-			if ir, ok := phi.Edges[arm].(*ssa.Call); ok && calleeFull(ir) == "strings.IndexRune" {
-				if k, ok := ir.Common().Args[0].(*ssa.Const); ok && k.Value != nil {
-					switch constant.StringVal(k.Value) {
-					case aT:
-						table = "A"
-					case bT:
-						table = "B"
-					}
-				}
-				c.Check(R6, "code128.getCodeIndexList/"+table+"-default-subject", ir.Pos(), n.Norm(ir.Common().Args[1]).String() == "r", "index of the current rune", n.Norm(ir.Common().Args[1]).String())
+		if def, err := armOf(65); err == nil {
+			switch def {
+			case fmt.Sprintf("call:strings.IndexRune(const:%q,r)", aT):
+				table = "A"
+			case fmt.Sprintf("call:strings.IndexRune(const:%q,r)", bT):
+				table = "B"
 			}
 		}
 		if table == "" {
-			c.Check(R6, "code128.getCodeIndexList/value-table", phi.Pos(), false, "default arm = strings.IndexRune(aTable|bTable, r)", "other")
+			c.Check(R6, "code128.getCodeIndexList/value-table", call.Pos(), false, "default arm = strings.IndexRune(aTable|bTable, r)", "other")
 			continue
 		}
 		seenSets[table] = true
@@ -387,7 +421,7 @@ func ruleCode128Encoder(c *Ctx) {
 		if table == "B" {
 			want["FNC4"] = "100"
 		}
-		c.Check(R6, "code128.getCodeIndexList/"+table+"-fnc", phi.Pos(), fmt.Sprint(arms) == fmt.Sprint(want), fmt.Sprint(want), fmt.Sprint(arms))
+		c.Check(R6, "code128.getCodeIndexList/"+table+"-fnc", call.Pos(), fmt.Sprint(arms) == fmt.Sprint(want), fmt.Sprint(want), fmt.Sprint(arms))
 		// the branch this emission belongs to
 		wantBranch := map[string]string{"A": "!useC && useA", "B": "!useC && !useA"}[table]
 		rc := n.ReachCond(fn, body, call.Block())
